@@ -17,8 +17,9 @@ def run(ctx):
     q = ctx.quick
     b = ctx.build("vd-merkle")
     rep = load_replay(ctx)
-    runs = [("Merkle_c07_quick.cfg", None)] if q else [
-        ("Merkle_c07_thorough_single.cfg", None), ("Merkle_c07_thorough_near.cfg", None), ("Merkle_c07_thorough_double.cfg", None)]
+    runs = [("Merkle_c07_quick.cfg", None), ("Merkle_c07_quick_double.cfg", None)] if q else [
+        ("Merkle_c07_thorough_single.cfg", None), ("Merkle_c07_thorough_near.cfg", None),
+        ("Merkle_c07_thorough_double.cfg", None), ("Merkle_c07_thorough_double_full.cfg", None)]
     total = distinct = 0
     for cfg, files in runs:
         rows, pools = table(ctx, cfg, files=files, timeout=2400)
@@ -55,6 +56,7 @@ def run(ctx):
             ctx.note("the real VerifyConsistency behaves like the repaired variant (shortcut only for equal sizes) on %d rows"
                      % s["counts"]["matches-repaired-variant"])
         ctx.sample({"row": rows[len(rows) // 3]["v"]})
+        del rows, pools, out
     ctx.cov["evaluations"] = total
     ctx.cov["distinct_nontrivial"] = distinct
     return ctx.finish(rule="P-TABLE: (verifier, n, m) x mutation menu (replace any proof element by any hash of the pool - every node and "
